@@ -126,11 +126,13 @@ def gen_backend(rng, facts):
             if rng.random() < 0.4:
                 inj.append((rng.choice([3, 4, 5, 6, 8]), rng.choice([0, 1]), [('resume', rng.randrange(nt))]))
             c.poll(inj)
+    n0 = len(c.cmds)
     for _ in range(6):
         c.tick(2000)
         for _ in range(12): c.poll()
         for t in range(nt): c.resume(t)
     c.ctx()
+    c.keep_tail = len(c.cmds) - n0
     return c
 
 
